@@ -30,9 +30,7 @@ ID = "C09"
 PROPS = "Props/C09.v"
 EXTRACT = "extract/ExC09.v"
 OBLIGATION = "swhid-parse"
-THEOREMS = ["C09_total", "C09_accepts_sound", "C09_accepts_iff", "C09_reprint", "C09_classes_agree",
-            "C09_long_number_refuted", "C09_lines_over_acceptance_refuted_old", "C09_reprint_refuted_old",
-            "C09_tables", "C09_satisfiable"]
+THEOREMS = ["C09_total", "C09_accepts_sound", "C09_accepts_iff", "C09_reprint", "C09_classes_agree", "C09_long_number_refuted", "C09_lines_over_acceptance_refuted_old", "C09_reprint_refuted_old", "C09_surrogate_path_rejected", "C09_tables", "C09_satisfiable"]
 RULE = ("valid sentences from the BNF (types x qualifier multisets x orders x duplicates x escapes x leading zeros) and "
         "malformed neighbours (every substitution/insertion/deletion/case flip at every position of valid seeds, "
         "separators replaced by each of the 29 whitespace code points and look-alikes, numerals '+1' '-1' '1_0' ' 1' "
